@@ -302,6 +302,12 @@ func (m *MTProto) readMsg() error {
 		}
 	}
 
+	if _, unencrypted := response.(*messages.Unencrypted); unencrypted && !m.serviceModeActivated {
+		// unencrypted messages are used only while the auth key is being created. after that, message which
+		// is not sealed by the auth key can be written by anybody on the way: it must not be trusted
+		return errors.New("got unencrypted message in encrypted session")
+	}
+
 	if m.serviceModeActivated {
 		var obj tl.Object
 		// сервисные сообщения ГАРАНТИРОВАННО в теле содержат TL.
